@@ -24,7 +24,7 @@ def main(argv=None):
     pid = args.pid.upper()
     if args.tier == "thorough":
         os.environ.setdefault("SPVERIF_PROOF_BUDGET", "25")
-        os.environ.setdefault("SPVERIF_TASK_TIMEOUT", "1500")
+        os.environ.setdefault("SPVERIF_TASK_TIMEOUT", "6000")
     try:
         mod = importlib.import_module(f".props.{pid.lower()}", __package__)
     except ModuleNotFoundError:
